@@ -110,6 +110,18 @@ func famRepro(tr *Trace, scratch string, seed int64, tier string, nfpmBin string
 		}
 
 		c.UseSDE = i%4 == 1
+		if i == 5 { // a reproducible-build date after January 2038 (it does not fit 31 bits)
+			c.Pmt = 4102444800
+		}
+		if i%3 == 1 { // the same relation more than once, several distinct ones: stated in the order written, every build
+			c.Depends = []string{"a", "b", "a", "c", "d >= 1", "b", "e", "f"}
+			c.Provides, c.Conflicts, c.Replaces = []string{"p1", "p2", "p1", "p3"}, []string{"x", "y", "x", "z"}, []string{"r", "s", "r", "t"}
+			c.Recommends, c.Suggests = []string{"m", "n", "m", "o"}, []string{"u", "v", "u", "w"}
+			c.DebPredepends, c.IpkPredepends = []string{"pd", "pe", "pd", "pf"}, []string{"ia", "ib", "ia", "ic"}
+		}
+		if i == 7 { // an architecture no table knows: passed on as it is, the same in every build
+			c.Arch = "arm64v8.0"
+		}
 		c.RpmBuildHost = "buildhost.example"
 		// at least two maintainer scripts, a changelog now and then
 		pc.Nodes = append(pc.Nodes[:0:0], pc.Nodes...)
@@ -161,7 +173,7 @@ func famRepro(tr *Trace, scratch string, seed int64, tier string, nfpmBin string
 		r := &rc{pc: pc, yAbs: c.YAML(pc.Root), yRel: strings.ReplaceAll(c.YAML("@@REL@@"), "@@REL@@/", "")}
 		must(os.WriteFile(filepath.Join(pc.Root, "nfpm-abs.yaml"), []byte(r.yAbs), 0o644))
 		must(os.WriteFile(filepath.Join(pc.Root, "nfpm-rel.yaml"), []byte(r.yRel), 0o644))
-		r.evs = []M{{"ev": "case", "id": pc.ID, "fam": "repro", "pmt": c.Pmt, "sde": c.UseSDE}}
+		r.evs = []M{{"ev": "case", "id": pc.ID, "fam": "repro", "pmt": min(c.Pmt, 2147483647), "sde": c.UseSDE}} // (TLC's integers are 32 bits wide; the field is informational)
 		cases = append(cases, r)
 	}
 	builds := 0
